@@ -11,12 +11,15 @@ encVars_eq blob_rt derive_wrong_tag derive_wrong_tag_enum derive_missing_tag res
 derive_unknown_variant derive_enum_indefinite_wrapper_rejected borrowed_leaf_is_input_slice null_clash_counterexample
 derive_decode_reframed_partial derive_decode_reframed_counterexample_K8 derive_decode_reframed_statement_false
 fieldsDec_indef derive_decode_indefinite_struct
-rf_dec rf_fields rf_vars derive_decode_reframed reframed_examples""".split()]
+rf_dec rf_fields rf_vars derive_decode_reframed reframed_examples
+pref_rf pref_fields pref_vars reframes_preferred derive_roundtrip_from_reframed val_rf val_fields val_vars reframes_sound
+derive_decode_reframed_partial2""".split()]
 REQUIRED += ["Minicbor.Derive." + n for n in """fieldsDec_rt runAt_hit runAt_miss arrLoopN_cells mapLoopN_stmts resolve_inv nilu_rt
 optionDec_some optionDec_none vecDec_rt arrLoopI_cells mapLoopI_stmts datatype_startNB
 body_reframed enum_reframed rf_vec_dec rf_int_dec rf_text_dec rf_bytes_dec rf_some_dec nilu_rf blob_rf tag_rf
 fieldsDec_arrN fieldsDec_arrI fieldsDec_mapN fieldsDec_mapI arrLoopN_X arrLoopI_X mapLoopN_E mapLoopI_E
-startNB_encW startOk_encW skip_emptyW readerVals_self""".split()]
+startNB_encW startOk_encW skip_emptyW readerVals_self
+body_pref rfVars_pref snd_body snd_vars spec_valid""".split()]
 PACKAGES = ["dgen"]
 prepare = base.prepare
 RULE = ("ddec <type> <hex>: for every type definition and value of the C08 corpus (same grammar, same presence combinations and boundary values): "
